@@ -433,6 +433,29 @@ theorem option_tables_modelled :
 theorem default_keys_nodup : Gen.defaultKeys.Nodup ∧ keys Gen.defaultSettings = Gen.defaultKeys := by
   decide +kernel
 
+/-! ## `-c` overrides reach the code that uses the setting (finding F16) -/
+
+/-- **a key given in the -c file is what the run uses**: a function that reads the setting when it is called sees the
+value of the `-c` file for every key the file and the settings share (the repaired `save_df_as_table`) -/
+theorem config_override_reaches_call (args config settings : Dict) (key : String) (v : JVal)
+    (hk : (lookup settings key).isSome) (hc : lookup config key = some v) :
+    settingReadAtCall key settings (mergeConfig args config settings).2 = some v := by
+  unfold settingReadAtCall mergeConfig
+  simp only [lookup_updateExisting]
+  cases hs : lookup settings key with
+  | none => simp [hs] at hk
+  | some w => simp [hc]
+
+/-- F16, kernel-checked: a default argument bound at import ignores the override (`table_export_format`: csv in
+settings.json, json in the -c file — the pre-fix `evo_res --save_table` wrote csv) -/
+theorem f16_counterexample :
+    let settings : Dict := [("table_export_format", .atom (.str "csv"))]
+    let config : Dict := [("table_export_format", .atom (.str "json"))]
+    let run := (mergeConfig [] config settings).2
+    settingBoundAtImport "table_export_format" settings run = some (.atom (.str "csv")) ∧
+    settingReadAtCall "table_export_format" settings run = some (.atom (.str "json")) := by
+  decide +kernel
+
 /-! ## non-vacuity -/
 
 example : (setConfig Gen.defaultSettings ["plot_split", "plot_linewidth", "3", "plot_statistics", "none"]).toOption.map
